@@ -46,6 +46,12 @@ THEOREMS = [
     "C03_complete_calls",
     "C03_run_function_node",
     "C03_file_second_restore_noop",
+    "C03_priority_ignores_run_state",
+    "C03_fetch_ignores_upstream_run_state",
+    "C03_skip_running_upstream_witness",
+    "C03_ready_current_value",
+    "C03_mutation_shuts_gate",
+    "C03_memoised_ready_witness",
 ]
 RULE = (
     "family `prod`: the full product of 0-4 connections x every connection order x every upstream state "
@@ -102,7 +108,10 @@ EXPLANATION = (
 POOL = list(range(1, 10)) + list(range(101, 106))
 # adversarial values (nodes_c03.make / tag): objects whose duck-typed surface lies about them
 ADV = (200, 201, 202, 203, 204, 205, 206, 210, 211, 212, 213, 214, 220, 221, 222, 223, 224, 225, 226, 227,
-       230, 231, 232, 240, 241, 242, 243)
+       230, 231, 232, 240, 241, 242, 243, 250, 251, 252, 253, 254)
+# 250.. are mutable (a list / a dict); the pairs the harness, as the other holder of the object, can turn into one
+# another in place
+MUTATIONS = {(250, 251), (251, 250), (250, 254), (254, 250), (252, 253), (253, 252)}
 
 # ----------------------------------------------------------------------------- static layout
 
@@ -110,6 +119,7 @@ ADV = (200, 201, 202, 203, 204, 205, 206, 210, 211, 212, 213, 214, 220, 221, 222
 _I3 = (("x", int), ("y", str), ("z", None))
 _U3 = (("x", None), ("y", None), ("z", None))
 _F3 = (("x", float), ("y", list), ("z", None))
+_G3 = (("x", list[int]), ("y", dict[str, int]), ("z", None))
 _O3 = (("ox", None), ("oy", None), ("oz", None))
 SPECS = {
     "SrcU": ((("a", None),), (("o", None),), None),
@@ -121,6 +131,10 @@ SPECS = {
     "MU": (_U3, _O3, ("c", "C3")),
     "MM": (_U3, _O3, ("m", "M3")),
     "CF": (_F3, _O3, None),
+    "CG": (_G3, _O3, None),
+    "CGC": (_G3, _O3, None),
+    "MG": (_U3, _O3, ("c", "CG")),
+    "MGT": (_G3, _O3, ("c", "CG")),
     "C3C": (_I3, _O3, None),
     "SrcN": ((("a", None),), (("o", None),), None),
     # a composite with several children: kids (label, spec); inl: macro input idx -> (kid idx, kid input idx);
@@ -134,7 +148,7 @@ SPECS = {
             "deps": {2: (0, 1)}}),
 }
 QUIET = {"SrcU", "SrcT", "SrcS", "SrcN"}  # node classes whose function does not write to the call log
-CACHED = {"SrcU", "SrcT", "SrcS", "C3C"}  # node classes with use_cache on (the library's default)
+CACHED = {"SrcU", "SrcT", "SrcS", "C3C", "CGC"}  # node classes with use_cache on (the library's default)
 
 
 def layout(specs, full=False):
@@ -199,8 +213,20 @@ def _ref_admit(hint, v):
     type of the object and not on anything the object says about itself"""
     import pint
 
+    import typing
+
     if pint.Quantity in type(v).__mro__:
         v = v.magnitude
+    origin = typing.get_origin(hint)
+    if origin is list:
+        # every element, judged on its own type (the harness' values agree in all elements, so the library's
+        # first-element sampling gives the same verdict: how deep valid_value looks is C04's subject)
+        (et,) = typing.get_args(hint)
+        return list in type(v).__mro__ and all(et in type(e).__mro__ and type(e) is not bool for e in list.__iter__(v))
+    if origin is dict:
+        kt, vt = typing.get_args(hint)
+        return dict in type(v).__mro__ and all(kt in type(a).__mro__ and vt in type(b).__mro__
+                                               for a, b in dict.items(v))
     return hint in type(v).__mro__
 
 
@@ -273,8 +299,11 @@ def tops_of(nodes):
 
 
 def hint_leq(a, b):
-    """`a` is as or more specific than `b` (plain classes)"""
-    return issubclass(a, b)
+    """`a` is as or more specific than `b` (plain classes; subscripted generics only compare equal to themselves)"""
+    try:
+        return issubclass(a, b)
+    except TypeError:
+        return a == b
 
 
 def ch_of(nodes, n, label):
@@ -945,6 +974,153 @@ def _exec_points():
     return pts
 
 
+# an upstream NODE that is busy (job out on an executor, or flagged) while the downstream fetches / runs
+UP_BUSY = ["idle", "out-pickle", "out-cloud", "flagrun", "flagfail"]
+UP_SINK = ["fetch", "run", "runx"]
+
+
+def _uprun_case(ran, busy, perm, sink, idx):
+    """two upstream consumers (their outputs feed x of the sink, connected in order `perm`), each of which has run
+    before or not and is idle / re-submitted to an executor and not finished / flagged running or failed when the
+    sink fetches or runs: which upstream the sink takes depends on connection order and data presence alone"""
+    specs = ["C3", "C3", "C3C" if idx % 4 == 3 else "C3"]
+    nodes, _c, _l = layout(specs)
+    sn = 2
+    x, y, z = nodes[sn]["ins"]
+    ops = [["set", y, 101], ["set", z, 5]]
+    if idx % 3 == 0:
+        ops.append(["set", x, 9])
+    for u in (0, 1):
+        if ran[u]:
+            ops.append(["run", u, [["x", u + 1], ["y", 101], ["z", 5]], []])
+        else:
+            ops.append(["setinputs", u, [["x", u + 1], ["y", 101], ["z", 5]], []])
+    for u in perm:
+        ops.append(["connect", x, nodes[u]["outs"][0]])
+    for u in (0, 1):
+        b = busy[u]
+        if b.startswith("out"):
+            ops.append(["runx", u, [["x", u + 3]], [], b[4:]])
+        elif b == "flagrun":
+            ops.append(["flag", u, 1, 0])
+        elif b == "flagfail":
+            ops.append(["flag", u, 0, 1])
+    if sink == "fetch":
+        ops += [["fetch", x], ["run", sn, [], []]]
+    elif sink == "run":
+        ops.append(["run", sn, [], []])
+    else:
+        ops += [["runx", sn, [], [], "pickle"], ["complete", 0], ["complete", sn]]
+    ops += [["complete", 0], ["complete", 1], ["flag", 0, 0, 0], ["flag", 1, 0, 0], ["run", sn, [], []]]
+    return {"fam": "uprun", "nodes": specs, "ops": ops,
+            "dims": {"ran": list(ran), "busy": list(busy), "perm": list(perm), "sink": sink}}
+
+
+def _uprun_points():
+    pts = []
+    for ran in itertools.product((True, False), repeat=2):
+        for busy in itertools.product(UP_BUSY, repeat=2):
+            for perm in ((0, 1), (1, 0)):
+                for sink in UP_SINK:
+                    pts.append((ran, busy, perm, sink))
+    return pts
+
+
+# mutable values delivered while valid and changed in place afterwards
+MUT_PATH = ["set", "assign", "setinputs", "runkw", "runpos", "fetch", "MG", "MGT", "link", "copyio"]
+MUT_WHEN = ["before", "after", "back", "grow", "twice", "softhint"]
+
+
+def _mut_case(cons, which, path, when, idx):
+    """the value (a list for x: list[int], a dict for y: dict[str, int]) reaches the input over `path` while it
+    satisfies the hint; then its other holder changes it in place; then the node runs WITHOUT a new assignment: the
+    gate has to judge what the input holds now"""
+    good, bad = ((250, 251), (252, 253))[which]
+    other = (252, 250)[which]  # a good value for the other hinted input
+    lab = "xy"[which]
+    if path in ("MG", "MGT"):
+        specs = ["SrcU", path]
+        nodes, _c, _l = layout(specs)
+        top, cn = 1, 2
+    elif path in ("link", "copyio"):
+        specs = ["SrcU", "C3", cons]
+        nodes, _c, _l = layout(specs)
+        top, cn = 2, 2
+    else:
+        specs = ["SrcU", cons]
+        nodes, _c, _l = layout(specs)
+        top, cn = 1, 1
+    tins = nodes[top]["ins"]
+    cins = nodes[cn]["ins"]
+    tgt = cins[which]
+    up = nodes[0]["outs"][0]
+    ops = [["set", tins[1 - which], other], ["set", tins[2], 5]]
+    kw, pos = [], []
+    if path in ("set", "MG", "MGT"):
+        ops.append(["set", tins[which], good])
+    elif path == "assign":
+        ops.append(["assign", tgt, good])
+    elif path == "setinputs":
+        ops.append(["setinputs", cn, [[lab, good]], []])
+    elif path == "runkw":
+        kw = [[lab, good]]
+    elif path == "runpos":
+        pos = [good] if which == 0 else [254, good]
+    elif path == "fetch":
+        ops += [["set", up, good], ["connect", tgt, up], ["fetch", tgt], ["disconnect", tgt, up]]
+    elif path == "link":
+        sx = nodes[1]["ins"][2]
+        ops += [["link", sx, tgt], ["set", sx, good]]
+    elif path == "copyio":
+        ops += [["strict", nodes[1]["ins"][which], 0], ["set", nodes[1]["ins"][which], good],
+                ["set", nodes[1]["ins"][1 - which], "ND"], ["copyio", cn, 1, False]]
+    first = ["run", top, kw, pos]
+    again = ["run", top, [], []]
+    if when == "before":
+        ops += ([first] if (kw or pos) else []) + [["mutate", good, bad], again]
+    elif when == "after":
+        ops += [first, ["mutate", good, bad], again, ["run", cn, [], []]]
+    elif when == "back":
+        ops += [first, ["mutate", good, bad], again, ["mutate", bad, good], again]
+    elif when == "grow":
+        if which == 0:
+            ops += [first, ["mutate", 250, 254], again, ["mutate", 254, 250], again]
+        else:
+            ops += [first, ["mutate", good, bad], ["set", tins[which], good], again]
+    elif when == "twice":
+        ops += [first, ["mutate", good, bad], again, again, ["flag", top, 0, 0], ["flag", cn, 0, 0], again]
+    elif when == "softhint":
+        ops += [["strict", tgt, 0], first, ["mutate", good, bad], again, ["strict", tgt, 1], again]
+    if idx % 2:
+        ops += [["fetch", tgt], again]
+    # keep the mutate preconditions: an object is changed only from the content it has, into a content no other
+    # pool object of the case has
+    have, fixed = set(), []
+    for o in ops:
+        if o[0] == "mutate":
+            if o[1] not in have or o[2] in have:
+                continue
+            have.discard(o[1])
+            have.add(o[2])
+        else:
+            def ints(x):
+                if isinstance(x, int) and not isinstance(x, bool):
+                    yield x
+                elif isinstance(x, (list, tuple)):
+                    for y_ in x:
+                        yield from ints(y_)
+            for v in ints(o[2:] if o[0] in ("set", "assign") else o[2:]):
+                if v >= 200:
+                    have.add(v)
+        fixed.append(o)
+    return {"fam": "mut", "nodes": specs, "ops": fixed,
+            "dims": {"cons": cons, "which": which, "path": path, "when": when}}
+
+
+def _mut_points():
+    return [(c, w, p, t) for c in ("CG", "CGC") for w in (0, 1) for p in MUT_PATH for t in MUT_WHEN]
+
+
 def _adv_points():
     pts = []
     for v in ADV:
@@ -965,6 +1141,7 @@ def gen_cases(rng, tier):
     rtp = _rt_points()
     advp = _adv_points()
     mrp, cap, exp_ = _mrun_points(), _cache_points(), _exec_points()
+    upp, mup = _uprun_points(), _mut_points()
     if tier == "quick":
         ridx = sorted(rng.sample(range(len(rtp)), 280))
         aidx = sorted(rng.sample(range(len(advp)), 330))
@@ -973,6 +1150,8 @@ def gen_cases(rng, tier):
         cidx = sorted(set(rng.sample(range(len(cap)), 80)) | set(range(len(cap) - 30, len(cap), 3)))
         eidx = sorted(rng.sample(range(len(exp_)), 160))
         n_rx = 50
+        uidx = sorted(rng.sample(range(len(upp)), 150))
+        muidx = range(len(mup))
         small = [i for i, pt in enumerate(prod) if pt[0] <= 2]
         big = [i for i, pt in enumerate(prod) if pt[0] > 2]
         pidx = small + sorted(rng.sample(big, 900))
@@ -987,6 +1166,7 @@ def gen_cases(rng, tier):
         n_rrt = 1500
         midx, cidx, eidx = range(len(mrp)), range(len(cap)), range(len(exp_))
         n_rx = 2500
+        uidx, muidx = range(len(upp)), range(len(mup))
     off = rng.randrange(10_000)
     for i in pidx:
         yield _prod_case(*prod[i], idx=i + off)
@@ -1010,6 +1190,10 @@ def gen_cases(rng, tier):
         yield _exec_case(*exp_[i], idx=i + off)
     for j in range(n_rx):
         yield _rand_case(rng, rng.randint(8, 30 if tier == "quick" else 42), wf=j % 4 == 0, serial=True, general=True)
+    for i in uidx:
+        yield _uprun_case(*upp[i], idx=i + off)
+    for i in muidx:
+        yield _mut_case(*mup[i], idx=i + off)
 
 
 def corpus():
@@ -1264,7 +1448,7 @@ def run_impl(case):
                         if ch.value_receiver is not None)
     assert seen_links == sorted(links), f"value links drift: {seen_links} vs {links}"
     for c, ch in zip(chans, cobj):
-        assert ch.type_hint is c["hint"], f"hint drift on {c}"
+        assert ch.type_hint == c["hint"], f"hint drift on {c}"
     # ... and so are the connections made inside macros, in the predicted order, and the cache switches
     want_conns = [[] for _ in chans]
     for a, b in wires:
@@ -1365,6 +1549,12 @@ def run_impl(case):
                     sched.jobs.remove(job)
                     _run_job(job)  # the done-callback (`_finish_run`) runs here; what it raises is swallowed by the future
                     res = "completed"
+            elif kind == "mutate":
+                # the harness is the other holder of the pool object: it changes it in place; no channel is told
+                assert (op[1], op[2]) in MUTATIONS and op[1] in pool and op[2] not in pool, f"mutate precondition {op}"
+                obj = pool.pop(op[1])
+                N.mutate(obj, op[2])
+                pool[op[2]] = obj
             elif kind == "strict":
                 cobj[op[1]].strict_hints = bool(op[2])
             elif kind == "flag":
@@ -1561,6 +1751,8 @@ def model_input(case, impl=None):
             lines.append(f"submit {op[1]} {_kwlines(nodes, op[1], op[2], op[3])}".rstrip())
         elif k == "complete":
             lines.append(f"complete {op[1]}")
+        elif k == "mutate" and (op[1], op[2]) in MUTATIONS:
+            lines.append(f"mutate {op[1]} {op[2]}")
         elif k == "strict":
             lines.append(f"strict {op[1]} {op[2]}")
         elif k == "flag":
@@ -1867,7 +2059,15 @@ def oracle(case, r):
                     for j, o in enumerate(ps):
                         alt[(c, o)] = (k, j)
 
-        # ---- no strictly hinted channel holds a value its hint rejects
+        # ---- no strictly hinted channel holds a value its hint rejects — by an ASSIGNMENT: a mutable value changed
+        # ---- in place by its other holder was not assigned (the gate has to notice it, clause gate-open)
+        if kind == "mutate" and res == "ok":
+            pv_ = [_val(x) for x in pre["vals"]]
+            for c, ch in enumerate(chans):
+                if pv_[c] == op[1] and qv[c] == op[2] and not admit(ch["hint"], qv[c]):
+                    excused[c] = qv[c]
+            for n_, jobs in pend.items():
+                pend[n_] = [[str(op[2]) if a == str(op[1]) else a for a in job] for job in jobs]
         if kind == "strict" and op[2] == 1:
             c = op[1]
             if qv[c] != "ND" and not admit(chans[c]["hint"], qv[c]) and not pre["strict"][c]:
@@ -1878,7 +2078,7 @@ def oracle(case, r):
             if post["strict"][c] and ch["hint"] is not None and qv[c] != "ND" \
                     and not (isinstance(qv[c], str) and qv[c].startswith("?")) \
                     and not admit(ch["hint"], qv[c]) and c not in excused:
-                fails.append(_f("bad-store", k, op, f"strict channel {c} ({ch['label']}: {ch['hint'].__name__}) holds {qv[c]}"))
+                fails.append(_f("bad-store", k, op, f"strict channel {c} ({ch['label']}: {getattr(ch['hint'], '__name__', ch['hint'])}) holds {qv[c]}"))
                 explained = False
         if fails and not explained:
             break
